@@ -197,6 +197,10 @@ def behaviour(run, drv, kinds, meta):
     lazy_names = api if run.tier == "thorough" else run.rng.sample(api, 110)
     for c in (["D1", "S1"] if run.tier == "thorough" else ["D1"]):
         plan += [(c, n, op, "lazy") for n, op in lazy_names]
+    # the comparison operators always run on the lazily stacked receiver (their reflected forms differ only at tied values)
+    comparisons = {"__eq__", "__ne__", "__ge__", "__gt__", "__le__", "__lt__"}
+    planned = {(c, n, r) for c, n, _, r in plan}
+    plan += [("D1", n, op, "lazy") for n, op in api if n in comparisons and ("D1", n, "lazy") not in planned]
     reqs, pend = [], []
     reqs2, pend2 = [], []
     coverage = {}
@@ -236,6 +240,7 @@ def behaviour(run, drv, kinds, meta):
                     aB, kB = cand.build(ctx, "td")
                 except Exception as e:  # noqa: BLE001
                     run.count("behaviour.argbuild_failed", f"{name}:{cand.label}:{type(e).__name__}")
+                    run.notes.append(f"COVERAGE LOSS: argument candidate {name}:{cand.label} ({recv}) could not be built: {type(e).__name__}: {str(e)[:120]}")
                     continue
                 st_td, r_td = B.invoke(tdB, name, aB, kB, is_op, on_class)
                 nt_before = B.nt_desc(tcA)
@@ -346,6 +351,7 @@ def main():
     behaviour(run, drv, kinds, meta)
     import c15_streams as S
     S.torch_functions(run, drv, ["D1", "S1"] if run.tier == "quick" else ["D1", "S1", "Fz", "Ac", "Nc", "Sh", "D2"])
+    S.torch_mixed(run, ["D1", "S1"] if run.tier == "quick" else ["D1", "S1", "Fz", "Ac", "Nc", "Sh", "D2"])
     S.typed_fields(run, drv)
     S.items_stream(run, drv)
     S.zero_d_setitem(run)
